@@ -192,7 +192,11 @@ def rule_pass(ctx):
         a = [render(strip(x)).replace(" ", "") for x in adds[0]["args"]]
         ctx.check(R, "visit_statement/record-carries-statement-meta-and-access", a[:3] == ["var", "access", "meta"], str(a), site(SA, adds[0]))
         le = let_env(vs["body"], adds[0])
-        ctx.check(R, "visit_statement/access-of-the-assigned-element", "access" in le and render(le["access"]).replace(" ", "") == "ifletUpdate{access,..}=rhe{access.clone()}else{Vec::new()}", render(le.get("access"))[:120] if "access" in le else "?", site(SA, vs))
+        import sgrep
+        acc_name = render(strip(adds[0]["args"][1]))
+        init = le.get(acc_name)
+        oka = init is not None and (sgrep.has(init, "if let Update { access: __a, .. } = __r { __a.clone() } else { Vec::new() }") or sgrep.has(init, "match __r { Update { access: __a, .. } => __a.clone(), _ => Vec::new() }"))
+        ctx.check(R, "visit_statement/access-of-the-assigned-element", bool(oka), render(init)[:120] if init is not None else "?", site(SA, vs))
 
 
 def rule_identity(ctx):
